@@ -240,6 +240,7 @@ func RunSampling(c SamplingCase) (res Result, evals int) {
 			}
 		}
 	case "perm":
+		subMismatch := map[int]bool{}
 		for _, row := range c.Rows {
 			t := &tape{data: drawBytes(row.D, func(i int) int { return i + 1 })}
 			r := random.NewVerifRand(t.read)
@@ -253,8 +254,19 @@ func RunSampling(c SamplingCase) (res Result, evals int) {
 				t2 := &tape{data: drawBytes(row.D, func(i int) int { return i + 1 })}
 				sub, err := random.NewVerifRand(t2.read).SubPermutation(c.N, m)
 				evals++
-				if err != nil || fmt.Sprint(sub) != fmt.Sprint(row.Out[:m]) {
-					add("SubPermutationDefinition", fmt.Sprintf("SubPermutation(%d,%d) on draws %v gave %v", c.N, m, row.D, sub))
+				if err != nil || len(sub) != m || !distinctInRange(sub, c.N) {
+					add("SubPermutationValid", fmt.Sprintf("SubPermutation(%d,%d) on draws %v gave %v (err %v)", c.N, m, row.D, sub, err))
+				} else if fmt.Sprint(sub) != fmt.Sprint(row.Out[:m]) && !subMismatch[m] {
+					// not the prefix of Permutation(n) on the same draws: the documentation only promises "the m first elements of a
+					// permutation", so another exactly uniform algorithm is allowed: decide by exact counting over the source bytes
+					subMismatch[m] = true
+					v, ev, decided := RunExploreDecided(ExploreJob{"subperm", c.N, m, 3})
+					evals += ev
+					if len(v) > 0 {
+						res.Violations = append(res.Violations, v...)
+					} else if !decided {
+						add("SubPermutationDefinition", fmt.Sprintf("SubPermutation(%d,%d) on draws %v gave %v, not the prefix %v of the permutation, and it consumes more source bytes than exact counting covers", c.N, m, row.D, sub, row.Out[:m]))
+					}
 				}
 			}
 		}
